@@ -11,13 +11,16 @@
 (*                        PwrEnergy*                                        *)
 (*   (c) Resistance  C07  ResMass ResWeight ResRolling ResDavisB ResBearing *)
 (*                        ResAero ResGrade ResCurve ResElevFront            *)
-(*                        ResGradeFront ResGradeBack                        *)
-(*   (d) Ledger      C11  Led* Get*                                         *)
+(*                        ResGradeFront ResGradeBack (Strap method);        *)
+(*                        ResGradePoint (Point method: mid-point grade)     *)
+(*   (d) Ledger      C11  Led* Get* (trip outputs of one simulation and of  *)
+(*                        a vector of simulations)                          *)
 (* Level B (implementation-shaped, model-checked, replayed):                *)
 (*   (a) set_link_and_offset on half-integer positions over 1..4 links      *)
 (*   (c) the two cached indices of path_res::Strap with                     *)
 (*       LinSearchHint::calc_idx and its direction hint                     *)
-(*   (d) a three-level energy accumulator with a fault action               *)
+(*   (d) a three-level energy accumulator with a fault action; the consist's *)
+(*       make-up (Consist::new, set_loco_vec) and its unit-kilometre outputs *)
 (* Every Level-B model writes the same record fields the harness logs, so   *)
 (* the same Level-A operators judge model states and recorded states.       *)
 (* Bounded configs (MCTrainSim_*.cfg; distinct states, seconds on 8 idle    *)
@@ -26,7 +29,9 @@
 (* 3 s (emitted), strapQ3 99 335 / 7 s, strapQ depth 4 447 557 / 38 s,      *)
 (* strapT 4 segments depth 4 1 484 686 / 2-5 min, ledger 4 625 / 1 s,       *)
 (* fault 66 284 / 2.5 s (invariant FaultDetected: a skipped update always   *)
-(* breaks the equalities).                                                   *)
+(* breaks the equalities), relist (make-up under Consist::new /              *)
+(* set_loco_vec, <= 2 units) 157 / 1 s (every pair emitted; relistC, the     *)
+(* count cached as in the code, violates RelistResKm: finding F-C11-1).      *)
 (*                                                                          *)
 (* Numbers. Set-speed runs ("ss") are toy-scale and dyadic: every logged    *)
 (* quantity that the code computes without g / rho_air is exactly on its    *)
@@ -168,6 +173,9 @@ COf(h, x) == LET i == CHOOSE i \in CurveIdx(h, x) : TRUE
 (* res_grade x length = weight x (E(front) - E(back));  rgl = res_grade / weight x length           *)
 ResGradeOf(h, s, c) == /\ OnRoute(h, s.x) /\ OnRoute(h, s.x - h.len)
                        /\ c.rgl = EOf(h, s.x) - EOf(h, s.x - h.len)
+(* the Point method (TrainRes::Point) takes the grade at the train's mid-point: res_grade / weight is a slope   *)
+(* of the profile there (either one at a breakpoint); rgl = that ratio x length                                  *)
+ResGradePointOf(h, s, c) == \E g \in Slopes(h, s.x - h.len \div 2) : c.rgl = g * h.len
 ResCurveOf(h, s, c) == /\ CurveIdx(h, s.x) # {} /\ CurveIdx(h, s.x - h.len) # {}
                        /\ c.rcl = COf(h, s.x) - COf(h, s.x - h.len)
 ResElevFrontOf(h, s, c)  == OnRoute(h, s.x) /\ c.elev = EOf(h, s.x)
@@ -195,13 +203,28 @@ GetAnnualOf(t, days) == /\ Abs(t[2]) < 268435456 \div days
                         /\ Abs(t[2] * 4 * days - 1461 * t[1]) <= 2 * days + 732
 (* Mg km = freight mass [1/16 Mg] x distance [1/64 km], product at 1/1024                           *)
 GetMgKmOf(g) == Abs(g.mgkmq - g.mg * g.kmq) <= (g.mg + g.kmq) \div 2 + 2
+(* battery-unit / other-unit kilometres: t = <<get(false), get(true), total distance>> at one scale;        *)
+(* get(false) = distance x number of such units IN THE CONSIST THE RUN USED (header `units`: the kinds of    *)
+(* the locomotives the consist was last given, whatever it was constructed from)                            *)
+ResKinds == {"bel", "hybrid"}
+NRes(h)    == Cardinality({i \in 1..Len(h.units) : h.units[i] \in ResKinds})
+NNonRes(h) == Len(h.units) - NRes(h)
+GetUnitKmOf(t, n) == Abs(t[1] - n * t[3]) <= n \div 2 + 1
+(* a vector of finished simulations (SpeedLimitTrainSimVec): every output is the sum of the simulations'   *)
+(* own outputs, plain and annualized (each simulation with its own factor);                                 *)
+(* x = <<per-simulation get(false), per-simulation get(true), vec get(false), vec get(true)>>, one scale    *)
+VecSumOf(x) == LET n == Len(x[1]) IN
+               /\ Len(x[2]) = n
+               /\ Abs(x[3] - Sum(x[1])) <= n \div 2 + 1
+               /\ Abs(x[4] - Sum(x[2])) <= n \div 2 + 1
 
 
 ----------------------------------------------------------------------------
 (* Level B                                                                   *)
 CONSTANTS MaxLinks, LinkLens, MaxMoves,          \* locate: route of <= MaxLinks links, lengths in LinkLens (units)
           MaxSegs, SegLens, Rises, TrainLens,    \* strap: profile of <= MaxSegs segments (lengths in half units)
-          MaxSteps, Pows, Fault                  \* ledger: per-unit powers, fault injection on/off
+          MaxSteps, Pows, Fault,                 \* ledger: per-unit powers, fault injection on/off
+          MaxUnits, Cached                       \* make-up: consists of <= MaxUnits units; count of battery units cached or current
 
 Nil == [none |-> TRUE]
 
@@ -339,7 +362,48 @@ LedgerB == LedAllOf(cur)
 (* vacuity of the ledger invariant: once a level has skipped a non-zero update the equalities fail *)
 FaultDetected == mb.nf = 1 => ~LedAllOf(cur)
 
+(* ---- (d') make-up of the consist and the unit-kilometre outputs. Consist::new(units0) caches the number of   *)
+(* battery-equipped units (n_res_equipped, consist_model.rs:152); set_loco_vec(units) replaces the locomotives;  *)
+(* get_res_kilometers = distance x that count, get_non_res_kilometers = distance x (number of units - count),    *)
+(* computed in unsigned arithmetic. Cached = TRUE is the code as it is (the count is never refreshed: finding     *)
+(* F-C11-1, re-found by the fault config MCTrainSim_relistC.cfg); Cached = FALSE takes the count from the current *)
+(* units and satisfies Level A on every (units0, units) pair; those pairs are emitted and replayed as real runs   *)
+(* whose consist is made by Consist::new and re-listed through set_loco_vec.                                      *)
+UnitKinds == <<"conv", "bel">>
+RInit == /\ hdr = [mode |-> "ss", units |-> <<>>]
+         /\ cur = [k |-> 0, dist |-> 0, reskm |-> <<0, 0, 0>>, nonreskm |-> <<0, 0, 0>>, wrap |-> FALSE]
+         /\ prev = cur
+         /\ mb = [phase |-> "build0", u0 |-> <<>>, u |-> <<>>, cache |-> 0]
+RAdd0 == /\ mb.phase = "build0" /\ Len(mb.u0) < MaxUnits                   \* the list handed to Consist::new
+         /\ \E kd \in 1..2 : mb' = [mb EXCEPT !.u0 = Append(@, UnitKinds[kd])]
+         /\ UNCHANGED <<hdr, prev, cur>>
+RNew == /\ mb.phase = "build0" /\ Len(mb.u0) >= 1                          \* Consist::new: the count is taken here
+        /\ hdr' = [hdr EXCEPT !.units = mb.u0]
+        /\ mb' = [mb EXCEPT !.phase = "build1", !.cache = NRes([units |-> mb.u0])]
+        /\ UNCHANGED <<prev, cur>>
+RAdd1 == /\ mb.phase = "build1" /\ Len(mb.u) < MaxUnits                    \* the list handed to set_loco_vec
+         /\ \E kd \in 1..2 : mb' = [mb EXCEPT !.u = Append(@, UnitKinds[kd])]
+         /\ UNCHANGED <<hdr, prev, cur>>
+RSet == /\ mb.phase = "build1" /\ Len(mb.u) >= 1                           \* set_loco_vec: locomotives replaced, nothing else
+        /\ hdr' = [hdr EXCEPT !.units = mb.u]
+        /\ mb' = [mb EXCEPT !.phase = "run"]
+        /\ UNCHANGED <<prev, cur>>
+RRun == /\ mb.phase = "run"                                                \* a trip of d distance units, then the two getters
+        /\ \E d \in 1..2 :
+             LET n == IF Cached THEN mb.cache ELSE NRes(hdr)
+                 m == Len(hdr.units) - n IN
+             cur' = [k |-> 1, dist |-> d, reskm |-> <<d * n, 0, d>>,
+                     nonreskm |-> <<d * Max2(m, 0), 0, d>>, wrap |-> m < 0]        \* m < 0: the unsigned difference wraps
+        /\ prev' = cur
+        /\ mb' = [mb EXCEPT !.phase = "done"]
+        /\ UNCHANGED hdr
+RNext == RAdd0 \/ RNew \/ RAdd1 \/ RSet \/ RRun
+RelistDone == mb.phase = "done"
+RelistResKm    == RelistDone => GetUnitKmOf(cur.reskm, NRes(hdr))
+RelistNonResKm == RelistDone => ~cur.wrap /\ GetUnitKmOf(cur.nonreskm, NNonRes(hdr))
+
 SpecLocate == LInit /\ [][LNext]_vars
+SpecRelist == RInit /\ [][RNext]_vars
 SpecStrap  == SInit /\ [][SNext]_vars
 SpecLedger == GInit /\ [][GNext]_vars
 =============================================================================
